@@ -248,17 +248,57 @@ def object_ids(msg, schema, tname, path='', out=None):
     return out
 
 
-def mutate_in_place(msg, schema, tname, rng, grow=False):
+def _first_array_op(cur, m, comp, rng):
+    """One whole-array mutator as the FIRST write to this array object: sort, slice assignment, deletion, insert,
+    extend, remove. Returns 1 when the array changed."""
+    before = list(cur) if not comp else len(cur)
+    growable = m.kind in (DYNAMIC, LIMITED, GREEDY)    # not EXT: arrays sharing a sizer have to keep equal lengths
+    ops = ['sort', 'sort']
+    if not comp:
+        ops += ['slice']
+    if growable and len(cur):
+        ops += ['delitem', 'delslice'] + ([] if comp else ['remove'])
+    if growable and not comp and len(cur) and (m.kind != LIMITED or len(cur) < m.size):
+        ops += ['insert', 'extend']
+    op = rng.choice(ops)
+    try:
+        if op == 'sort':
+            if comp:
+                cur.sort(key_function=lambda e: -id(e))
+                return 0      # order of equal-looking elements: judged through the other message's observation only
+            cur.sort(key_function=lambda x: -x)
+            if list(cur) == before:
+                cur.sort()
+        elif op == 'slice':
+            cur[:] = list(reversed(list(cur)))
+        elif op == 'delitem':
+            del cur[0]
+        elif op == 'delslice':
+            del cur[len(cur) // 2:]
+        elif op == 'remove':
+            cur.remove(cur[-1])
+        elif op == 'insert':
+            cur.insert(0, cur[-1])
+        elif op == 'extend':
+            cur.extend([cur[0]])
+    except TypeError:
+        return 0
+    after = list(cur) if not comp else len(cur)
+    return 1 if after != before else 0
+
+
+def mutate_in_place(msg, schema, tname, rng, grow=False, array_ops=False):
     """Change leaf values of a live message in place (containers and nested objects are kept, so a
     message that aliases any of them changes too). With grow=True every dynamic/limited/greedy array that has
     room additionally gets one more element through append()/add() - an (empty) container shared with another
-    message shows up there. Returns the number of leaves changed."""
+    message shows up there. With array_ops=True the first write to every array object is a whole-array mutator
+    (sort, slice assignment, deletion, insert, extend, remove). Returns the number of leaves changed."""
     r = schema.resolve(tname)
     n = 0
     if r.kind == 'union':
         arm = [a for a in r.arms if a[0] == msg.discriminator][0]
         if is_composite(schema, arm[1]):
-            return mutate_in_place(getattr(msg, arm[2]), schema, arm[1], rng, grow)
+            return mutate_in_place(getattr(msg, arm[2]), schema, arm[1], rng, grow, array_ops)
         nv = _other_scalar(schema, arm[1], getattr(msg, arm[2]), rng)
         if nv is not None:
             setattr(msg, arm[2], nv)
@@ -274,7 +314,7 @@ def mutate_in_place(msg, schema, tname, rng, grow=False):
             if cur is None:
                 continue
             if comp:
-                n += mutate_in_place(cur, schema, m.type, rng, grow)
+                n += mutate_in_place(cur, schema, m.type, rng, grow, array_ops)
             else:
                 nv = _other_scalar(schema, m.type, cur, rng)
                 if nv is not None:
@@ -286,9 +326,11 @@ def mutate_in_place(msg, schema, tname, rng, grow=False):
                 setattr(msg, m.name, bytes(bytearray([b[0] ^ 0x55])) + b[1:])
                 n += 1
         else:
+            if array_ops and len(cur):
+                n += _first_array_op(cur, m, comp, rng)
             for i in range(len(cur)):
                 if comp:
-                    n += mutate_in_place(cur[i], schema, m.type, rng, grow)
+                    n += mutate_in_place(cur[i], schema, m.type, rng, grow, array_ops)
                 else:
                     nv = _other_scalar(schema, m.type, cur[i], rng)
                     if nv is not None:
